@@ -569,8 +569,15 @@ func genFloat(t *rapid.T) V {
 	return V{K: "float", I: strconv.FormatUint(rapid.Uint64().Draw(t, "bits"), 10)}
 }
 
+var codecWords = []string{"verif", "A", "B", "Thing", "verif.A", "verif.B", "verif.Thing", "verif A", "verif\nA", "verif:Thing", "verif/B", "verifA",
+	"dawn", "dawn.Builtin", "dawn.Function", "dawn.Target", "builtins", "__main__", "N.", ".", "\x80\x02"}
+
 func genStr(t *rapid.T, kind string, o GenOpts) V {
-	switch rapid.IntRange(0, 9).Draw(t, "strclass") {
+	switch rapid.IntRange(0, 10).Draw(t, "strclass") {
+	case 10:
+		// the codec's own vocabulary: module and class names of the host picklers (alone and joined the ways
+		// a key might join them), opcode letters
+		return V{K: kind, S: []byte(rapid.SampledFrom(codecWords).Draw(t, "word"))}
 	case 0, 1, 2, 3, 4:
 		return V{K: kind, S: rapid.SliceOfN(rapid.Byte(), 0, 12).Draw(t, "lit")}
 	case 5, 6:
